@@ -12,7 +12,6 @@ import (
 	"context"
 	"fmt"
 	"net/netip"
-	"slices"
 	"sort"
 	"strings"
 	"sync/atomic"
@@ -21,317 +20,18 @@ import (
 
 	"github.com/miekg/dns"
 	"pgregory.net/rapid"
+	vc09model "verif.local/harness/C09/model"
 	"verif.local/harness/vstat"
 )
 
-// vc09T is an instant of the harness clock known up to an interval.
-type vc09T struct{ Lo, Hi int64 }
-
-// vc09KeyState is one state of one subnet that the statement allows after the
-// history so far.
-type vc09KeyState struct {
-	HasCtr     bool
-	CtrCreated vc09T
-	Log        []vc09T // the last limit events that went into the window, oldest first
-
-	// HitTimes are the over-limit hits that may still count towards backoff
-	// (at most the last count of them), oldest first; HitFirst is the first hit
-	// since the hits were last forgotten altogether.
-	HitTimes  []vc09T
-	HitFirst  vc09T
-	InBackoff bool
-	Reach     vc09T // when the hits reached the backoff count
-
-	// StrictLate is set when this explanation needs the subnet's window to have
-	// been forgotten (window object older than the backoff period) although
-	// events within the interval were in it.
-	StrictLate bool
-}
-
-func (s *vc09KeyState) clone() *vc09KeyState {
-	c := *s
-	c.Log = append([]vc09T(nil), s.Log...)
-	c.HitTimes = append([]vc09T(nil), s.HitTimes...)
-
-	return &c
-}
-
-func (s *vc09KeyState) id() string { return fmt.Sprintf("%+v", *s) }
-
-type vc09Limits struct {
-	lim      int
-	count    int
-	ivl      int64
-	period   int64
-	duration int64
-	// hitSpan is the time within which over-limit hits are counted together:
-	// the backoff period by the documentation.
-	hitSpan int64
-}
-
-type vc09Succ struct {
-	st   *vc09KeyState
-	drop bool
-	why  string
-}
-
-// vc09Cmp compares now-then with d given an extra slack: mayLE reports that
-// now-then <= d is possible, mayGT that now-then > d is possible.
-func vc09Cmp(now, then vc09T, d, slack int64) (mayLE, mayGT bool) {
-	minDiff := now.Lo - then.Hi - slack
-	maxDiff := now.Hi - then.Lo + slack
-
-	return minDiff <= d, maxDiff > d
-}
-
-// vc09Step returns every (state, verdict) the statement allows for an event at
-// T in state s.
-//
-// What is fixed by the statement and the documentation, and asserted:
-//
-//   - events count for exactly the interval (boundary inclusive); every event
-//     that reached the window counts, dropped or not;
-//   - over-limit hits are counted together only within the backoff period
-//     ("the time during which to count the number of requests that a client
-//     has sent over the RPS"): hits further apart than hitSpan never add up;
-//   - once count hits lie within that span the subnet is in backoff, at least
-//     while the first of them is at most min(period, duration) old and at most
-//     until backoff_duration after the count was reached;
-//   - a subnet in backoff is dropped and such a query is not a countable event,
-//     neither for the window nor for the hit count (requests "aren't allowed
-//     from client's subnet until backoff_duration ends", so once it has ended
-//     the subnet is served again however hard it retried meanwhile).
-//
-// What is left open and therefore allowed either way: whether all hits are
-// forgotten at once when the first of them is older than min(period, duration)
-// (the code does that) or slide out one by one; whether backoff ends
-// backoff_duration after the first hit or after the count was reached; whether
-// the subnet's window is forgotten once the window object is older than the
-// backoff period (the code does forget it; see the StrictLate class).
-func vc09Step(s *vc09KeyState, T vc09T, lm *vc09Limits, slack int64) (out []vc09Succ) {
-	type hitOpt struct {
-		s   *vc09KeyState
-		why string
-	}
-
-	var hitOpts []hitOpt
-	if len(s.HitTimes) == 0 && !s.InBackoff {
-		hitOpts = []hitOpt{{s, ""}}
-	} else {
-		if _, mayOlder := vc09Cmp(T, s.HitFirst, min(lm.period, lm.duration), slack); mayOlder {
-			c := s.clone()
-			c.HitTimes, c.HitFirst, c.InBackoff, c.Reach = nil, vc09T{}, false, vc09T{}
-			hitOpts = append(hitOpts, hitOpt{c, "all hits forgotten"})
-		}
-
-		stillMay, endedMay := true, false
-		if s.InBackoff {
-			stillMay, endedMay = vc09Cmp(T, s.Reach, lm.duration, slack)
-		}
-
-		if s.InBackoff && stillMay {
-			out = append(out, vc09Succ{s, true, "in backoff"})
-		}
-
-		if !s.InBackoff || endedMay {
-			// Hits that can no longer be within the span of any later hit are
-			// dropped from the state.
-			c := s.clone()
-			c.InBackoff, c.Reach = false, vc09T{}
-			kept := c.HitTimes[:0]
-			for _, h := range c.HitTimes {
-				if mayLE, _ := vc09Cmp(T, h, lm.hitSpan, slack); mayLE {
-					kept = append(kept, h)
-				}
-			}
-
-			c.HitTimes = kept
-			why := "hits kept"
-			if s.InBackoff {
-				why = "backoff ended; hits kept"
-			}
-
-			if len(c.HitTimes) == 0 {
-				c.HitTimes, c.HitFirst = nil, vc09T{}
-			}
-
-			hitOpts = append(hitOpts, hitOpt{c, why})
-		}
-	}
-
-	for _, ho := range hitOpts {
-		s1 := ho.s
-
-		type ctrOpt struct {
-			s     *vc09KeyState
-			reset bool
-		}
-
-		ctrOpts := []ctrOpt{{s1, false}}
-		if s1.HasCtr {
-			if _, mayGT := vc09Cmp(T, s1.CtrCreated, lm.period, slack); mayGT {
-				c := s1.clone()
-				c.HasCtr, c.Log = false, nil
-				ctrOpts = append(ctrOpts, ctrOpt{c, true})
-			}
-		}
-
-		// keptDefAbove: what the kept window says, for the StrictLate mark.
-		keptDefAbove := false
-		for _, co := range ctrOpts {
-			s2 := co.s
-			var mayAbove, mayBelow bool
-			switch {
-			case lm.lim == 0:
-				mayAbove = true
-			case len(s2.Log) < lm.lim:
-				mayBelow = true
-			default:
-				mayAbove, mayBelow = vc09Cmp(T, s2.Log[len(s2.Log)-lm.lim], lm.ivl, slack)
-			}
-
-			if !co.reset {
-				keptDefAbove = mayAbove && !mayBelow
-			}
-
-			for _, above := range []bool{true, false} {
-				if (above && !mayAbove) || (!above && !mayBelow) {
-					continue
-				}
-
-				s3 := s2.clone()
-				if !s3.HasCtr {
-					s3.HasCtr, s3.CtrCreated = true, T
-				}
-
-				s3.Log = append(s3.Log, T)
-				if keep := max(lm.lim, 1); len(s3.Log) > keep {
-					s3.Log = s3.Log[len(s3.Log)-keep:]
-				}
-
-				why := ho.why
-				if co.reset {
-					why += "; window object expired"
-					if !above && keptDefAbove {
-						s3.StrictLate = true
-					}
-				}
-
-				if !above {
-					out = append(out, vc09Succ{s3, false, why + "; below the limit"})
-
-					continue
-				}
-
-				// An over-limit hit.  How many earlier hits are within the span?
-				nDef, nPoss := 1, 1
-				for _, h := range s3.HitTimes {
-					mayLE, mayGT := vc09Cmp(T, h, lm.hitSpan, slack)
-					if mayLE {
-						nPoss++
-						if !mayGT {
-							nDef++
-						}
-					}
-				}
-
-				if len(s3.HitTimes) == 0 {
-					s3.HitFirst = T
-				}
-
-				s3.HitTimes = append(s3.HitTimes, T)
-				if keep := max(lm.count, 1); len(s3.HitTimes) > keep {
-					s3.HitTimes = s3.HitTimes[len(s3.HitTimes)-keep:]
-				}
-
-				why += "; limit reached within the interval"
-				if nDef < lm.count {
-					out = append(out, vc09Succ{s3, true, why})
-				}
-
-				if nPoss >= lm.count {
-					s4 := s3.clone()
-					s4.InBackoff, s4.Reach = true, T
-					out = append(out, vc09Succ{s4, true, why + "; backoff count reached"})
-				}
-			}
-		}
-	}
-
-	return out
-}
-
-// vc09KeySet is the set of allowed states of one subnet.
-type vc09KeySet struct {
-	states []*vc09KeyState
-	lost   bool // too many states: the subnet is no longer judged
-}
-
-const vc09MaxStates = 96
-
-// apply advances the set by one event.  observed is nil for events whose
-// verdict nobody sees (extra events of a large response).
-func (ks *vc09KeySet) apply(T vc09T, lm *vc09Limits, slack int64, observed *bool) (ok bool, allowed string) {
-	if ks.lost {
-		return true, ""
-	}
-
-	seen := map[string]bool{}
-	var next []*vc09KeyState
-	var verdicts []string
-	for _, s := range ks.states {
-		for _, su := range vc09Step(s, T, lm, slack) {
-			verdicts = append(verdicts, fmt.Sprintf("drop=%t (%s)", su.drop, strings.TrimPrefix(su.why, "; ")))
-			if observed != nil && su.drop != *observed {
-				continue
-			}
-
-			id := su.st.id()
-			if !seen[id] {
-				seen[id] = true
-				next = append(next, su.st)
-			}
-		}
-	}
-
-	if len(next) == 0 {
-		sort.Strings(verdicts)
-		verdicts = slices.Compact(verdicts)
-
-		return false, strings.Join(verdicts, " | ")
-	}
-
-	if len(next) > vc09MaxStates {
-		ks.lost = true
-		ks.states = nil
-
-		return true, ""
-	}
-
-	ks.states = next
-
-	return true, ""
-}
-
-func (ks *vc09KeySet) allStrictLate() bool {
-	if ks.lost || len(ks.states) == 0 {
-		return false
-	}
-
-	for _, s := range ks.states {
-		if !s.StrictLate {
-			return false
-		}
-	}
-
-	return true
-}
-
-func (ks *vc09KeySet) clearStrictLate() {
-	for _, s := range ks.states {
-		s.StrictLate = false
-	}
-}
+// The reference itself lives in verif.local/harness/C09/model, shared with the
+// configuration-plumbing part in package cmd.
+type (
+	vc09T        = vc09model.Instant
+	vc09KeyState = vc09model.KeyState
+	vc09Limits   = vc09model.Limits
+	vc09KeySet   = vc09model.KeySet
+)
 
 // ---------------------------------------------------------------------------
 // clock ownership
@@ -441,10 +141,10 @@ func vc09SlidingCase(t *rapid.T, st *vstat.Stats, run vc09SlideRun) {
 	sets := map[string]*keySets{}
 	limits := func(ip netip.Addr) (key string, lm, lmAlt *vc09Limits) {
 		key, lim, ivl := c.keyOf(ip)
-		lm = &vc09Limits{lim: lim, count: int(c.Count), ivl: int64(ivl), period: int64(c.Period), duration: int64(c.Duration), hitSpan: int64(c.Period)}
+		lm = &vc09Limits{Lim: lim, Count: int(c.Count), Ivl: int64(ivl), Period: int64(c.Period), Duration: int64(c.Duration), HitSpan: int64(c.Period)}
 		if c.Duration > c.Period {
 			a := *lm
-			a.hitSpan = int64(c.Duration)
+			a.HitSpan = int64(c.Duration)
 			lmAlt = &a
 		}
 
@@ -504,9 +204,9 @@ func vc09SlidingCase(t *rapid.T, st *vstat.Stats, run vc09SlideRun) {
 		key, lm, lmAlt := limits(ip)
 		kss := sets[key]
 		if kss == nil {
-			kss = &keySets{ks: &vc09KeySet{states: []*vc09KeyState{{}}}}
+			kss = &keySets{ks: &vc09KeySet{States: []*vc09KeyState{{}}}}
 			if lmAlt != nil {
-				kss.alt = &vc09KeySet{states: []*vc09KeyState{{}}}
+				kss.alt = &vc09KeySet{States: []*vc09KeyState{{}}}
 			}
 
 			sets[key] = kss
@@ -552,18 +252,18 @@ func vc09SlidingCase(t *rapid.T, st *vstat.Stats, run vc09SlideRun) {
 			t.Fatalf("client %s outside the allowlist reported as allowlisted\n%s", ip, hist())
 		}
 
-		wasInBackoff := !ks.lost && len(ks.states) > 0
-		for _, s := range ks.states {
+		wasInBackoff := !ks.Lost && len(ks.States) > 0
+		for _, s := range ks.States {
 			wasInBackoff = wasInBackoff && s.InBackoff
 		}
 
 		altOK := false
 		if lmAlt != nil {
-			altOK, _ = kss.alt.apply(T, lmAlt, slack, &drop)
-			altOK = altOK && !kss.alt.lost
+			altOK, _ = kss.alt.Apply(T, lmAlt, slack, &drop)
+			altOK = altOK && !kss.alt.Lost
 		}
 
-		ok, allowed := ks.apply(T, lm, slack, &drop)
+		ok, allowed := ks.Apply(T, lm, slack, &drop)
 		if !ok {
 			if altOK && st.Known(vc09KnownHitSpan) {
 				// Excluded, counted; the subnet is judged by the code's reading
@@ -578,29 +278,29 @@ func vc09SlidingCase(t *rapid.T, st *vstat.Stats, run vc09SlideRun) {
 				}
 
 				t.Fatalf("query from %s (subnet %s, limit %d per %s): limiter says drop=%t; verdicts the statement allows here: %s%s\n%s",
-					ip, key, lm.lim, time.Duration(lm.ivl), drop, allowed, note, hist())
+					ip, key, lm.Lim, time.Duration(lm.Ivl), drop, allowed, note, hist())
 			}
 		} else if lmAlt != nil && !altOK {
 			// The code's reading no longer explains the history: stop tracking it.
 			kss.alt = nil
 		}
 
-		if ks.lost {
+		if ks.Lost {
 			classes["ambiguity-overflow"] = true
 		}
 
-		if len(ks.states) > 1 {
+		if len(ks.States) > 1 {
 			classes["several-explanations"] = true
 		}
 
-		if ks.allStrictLate() {
+		if ks.AllStrictLate() {
 			// Reported, not judged: see the package comment of vc09Step.
 			classes["window-forgotten-after-period"] = true
 			if st.WantSample() {
 				st.Sample(map[string]any{"note": "query passed although the subnet had the limit within the interval: the per-subnet window object had outlived backoff_period and was dropped", "history": strings.Split(hist(), "\n")})
 			}
 
-			ks.clearStrictLate()
+			ks.ClearStrictLate()
 		}
 
 		if drop {
@@ -610,7 +310,7 @@ func vc09SlidingCase(t *rapid.T, st *vstat.Stats, run vc09SlideRun) {
 				backoffDrops[key] = append(backoffDrops[key], T)
 			}
 
-			for _, s := range ks.states {
+			for _, s := range ks.States {
 				if s.InBackoff {
 					classes["backoff-entered"] = true
 				}
@@ -625,7 +325,7 @@ func vc09SlidingCase(t *rapid.T, st *vstat.Stats, run vc09SlideRun) {
 			// by backoff within the interval before: those do not count.
 			n := 0
 			for _, bd := range backoffDrops[key] {
-				if T.Hi-bd.Lo+slack <= lm.ivl {
+				if T.Hi-bd.Lo+slack <= lm.Ivl {
 					n++
 				}
 			}
@@ -634,7 +334,7 @@ func vc09SlidingCase(t *rapid.T, st *vstat.Stats, run vc09SlideRun) {
 				classes["served-after-backoff-with-backoff-drops-in-window"] = true
 			}
 
-			if n >= lm.lim {
+			if n >= lm.Lim {
 				classes["served-after-backoff-with-backoff-drops-filling-window"] = true
 			}
 
@@ -657,9 +357,9 @@ func vc09SlidingCase(t *rapid.T, st *vstat.Stats, run vc09SlideRun) {
 			a = time.Now().UnixNano()
 			T = vc09T{Lo: b + offset, Hi: a + offset}
 			for j := uint64(0); j < extra; j++ {
-				ks.apply(T, lm, slack, nil)
+				ks.Apply(T, lm, slack, nil)
 				if kss.alt != nil {
-					kss.alt.apply(T, lmAlt, slack, nil)
+					kss.alt.Apply(T, lmAlt, slack, nil)
 				}
 			}
 
@@ -676,10 +376,10 @@ func vc09SlidingCase(t *rapid.T, st *vstat.Stats, run vc09SlideRun) {
 		classes["constructed-flood"] = true
 		ip := vc09DrawAddr(t, c.KL4, c.KL6, p6)
 		_, lm, _ := limits(ip)
-		ivl := time.Duration(lm.ivl)
+		ivl := time.Duration(lm.Ivl)
 		// Enter backoff: limit queries pass, count more are over-limit hits, one
 		// more is dropped by backoff.
-		for j := 0; j < lm.lim+lm.count+1; j++ {
+		for j := 0; j < lm.Lim+lm.Count+1; j++ {
 			if query("f0", ip, dns.TypeA, 0) {
 				return
 			}
@@ -694,7 +394,7 @@ func vc09SlidingCase(t *rapid.T, st *vstat.Stats, run vc09SlideRun) {
 			g := ivl/2 + ivl*time.Duration(rapid.IntRange(0, 4).Draw(t, "floodGap"))/10
 			advance(fmt.Sprintf("f%d", it), g)
 			elapsed += g
-			burst := lm.lim + 1 + rapid.IntRange(0, 1).Draw(t, "floodBurst")
+			burst := lm.Lim + 1 + rapid.IntRange(0, 1).Draw(t, "floodBurst")
 			for j := 0; j < burst; j++ {
 				if query(fmt.Sprintf("f%d", it), ip, dns.TypeA, 0) {
 					return
@@ -707,16 +407,16 @@ func vc09SlidingCase(t *rapid.T, st *vstat.Stats, run vc09SlideRun) {
 		classes["hits-spread-beyond-period"] = true
 		ip := vc09DrawAddr(t, c.KL4, c.KL6, 0)
 		_, lm, _ := limits(ip)
-		ivl := time.Duration(lm.ivl)
-		for h := 0; h < lm.count; h++ {
+		ivl := time.Duration(lm.Ivl)
+		for h := 0; h < lm.Count; h++ {
 			// limit queries pass, one more is an over-limit hit.
-			for j := 0; j < lm.lim+1; j++ {
+			for j := 0; j < lm.Lim+1; j++ {
 				if query(fmt.Sprintf("s%d", h), ip, dns.TypeA, 0) {
 					return
 				}
 			}
 
-			if h < lm.count-1 {
+			if h < lm.Count-1 {
 				advance(fmt.Sprintf("s%d", h), max(c.Period, ivl)+jit("spreadJ"))
 			}
 		}
